@@ -237,6 +237,28 @@ func (c *Ctx) Dominates(a, b *ssa.BasicBlock) bool {
 	return false
 }
 
+// Idom: immediate dominator of b under the context's pruning (nil for the entry).
+func (c *Ctx) Idom(b *ssa.BasicBlock) *ssa.BasicBlock {
+	if !c.Reach[b.Index] || c.idom[b.Index] < 0 {
+		return nil
+	}
+	return c.Fn.Blocks[c.idom[b.Index]]
+}
+
+// LoopFreeRegionStart: the earliest dominator d of b such that no block on
+// the dominator chain d..b lies in a loop (the start of the loop-free region
+// that leads to b).
+func (c *Ctx) LoopFreeRegionStart(b *ssa.BasicBlock) *ssa.BasicBlock {
+	cur := b
+	for {
+		p := c.Idom(cur)
+		if p == nil || c.LoopOf(p) != nil {
+			return cur
+		}
+		cur = p
+	}
+}
+
 // EdgeFact: condition Cond is known to be Val in a block.
 type EdgeFact struct {
 	Cond ssa.Value
